@@ -624,118 +624,62 @@ Definition buildSMTPConfig (d : definition) : M smtpConfigDef :=
                   sm_username := expand_env e (sm_username (d_smtp d)); sm_password := expand_env e (sm_password (d_smtp d)) |} e.
 
 (* ---- builder.go:107 build --------------------------------------------------------------------------- *)
-(* every builder function runs; an error is collected (b.errs) and the next one still runs; a panic
-   unwinds at once.  `call` = callBuilderFunc. *)
-Record bst := { b_dag : dag; b_failed : bool }.
-
-Definition call {A} (m : M A) (upd : A -> dag -> dag) (s : bst) : M bst :=
+(* every builder function runs in the order of the Go code; an error is collected (b.errs) and the next one
+   still runs; a panic unwinds at once.  `try_` = callBuilderFunc: the result of a builder function is kept
+   as an option (None = its error was collected); the DAG is assembled at the end and returned only when no
+   error was collected.  b.dag.Env, which buildSteps / buildHandlers hand to the steps as Variables, is what
+   buildEnvs produced (nothing after an error) followed by what buildParams added. *)
+Definition try_ {A} (m : M A) : M (option A) :=
   fun e => let '(r, e1, l1) := m e in
            match r with
-           | Ok a => (Ok {| b_dag := upd a (b_dag s); b_failed := b_failed s |}, e1, l1)
-           | Err => (Ok {| b_dag := b_dag s; b_failed := true |}, e1, l1)
+           | Ok a => (Ok (Some a), e1, l1)
+           | Err => (Ok None, e1, l1)
            | Panic => (Panic, e1, l1)
            end.
 
-Definition dag0 (d : definition) : dag :=
+Definition mk_dag (d : definition) (env : list string) (sch : list string * list string * list string)
+    (par : string * list string * list string) (steps : list step) (logDir : string)
+    (hs : option step * option step * option step * option step) (smtp : option smtpConfigDef)
+    (full : bool) (pre : list condition) : dag :=
   {| g_name := d_name d; g_group := d_group d; g_description := d_description d; g_tags := parseTags (d_tags d);
-     g_schedule := []; g_stopSchedule := []; g_restartSchedule := [];
-     g_env := []; g_logDir := ""; g_defaultParams := ""; g_params := [];
-     g_steps := []; g_onExit := None; g_onSuccess := None; g_onFailure := None; g_onCancel := None;
-     g_preconditions := []; g_smtp := None; g_errorMail := None; g_infoMail := None; g_mailOn := None;
+     g_schedule := fst (fst sch); g_stopSchedule := snd (fst sch); g_restartSchedule := snd sch;
+     g_env := env ++ snd par; g_logDir := logDir; g_defaultParams := fst (fst par); g_params := snd (fst par);
+     g_steps := steps;
+     g_onExit := fst (fst (fst hs)); g_onSuccess := snd (fst (fst hs)); g_onFailure := snd (fst hs); g_onCancel := snd hs;
+     g_preconditions := pre; g_smtp := smtp;
+     g_errorMail := if full then Some (d_errorMail d) else None; g_infoMail := if full then Some (d_infoMail d) else None;
+     g_mailOn := d_mailOn d;
      g_timeout := d_timeoutSec d; g_delay := d_delaySec d; g_restartWait := d_restartWaitSec d;
-     g_maxActiveRuns := 0; g_maxCleanUpTime := 0; g_histRetentionDays := 0 |}.
+     g_maxActiveRuns := if full then d_maxActiveRuns d else 0%Z;
+     g_maxCleanUpTime := if full then match d_maxCleanUpTimeSec d with Some z => z | None => 0%Z end else 0%Z;
+     g_histRetentionDays := if full then match d_histRetentionDays d with Some z => z | None => 0%Z end else 0%Z |}.
 
-Definition set_env (v : list string) (g : dag) : dag :=
-  {| g_name := g_name g; g_group := g_group g; g_description := g_description g; g_tags := g_tags g;
-     g_schedule := g_schedule g; g_stopSchedule := g_stopSchedule g; g_restartSchedule := g_restartSchedule g;
-     g_env := v; g_logDir := g_logDir g; g_defaultParams := g_defaultParams g; g_params := g_params g;
-     g_steps := g_steps g; g_onExit := g_onExit g; g_onSuccess := g_onSuccess g; g_onFailure := g_onFailure g; g_onCancel := g_onCancel g;
-     g_preconditions := g_preconditions g; g_smtp := g_smtp g; g_errorMail := g_errorMail g; g_infoMail := g_infoMail g; g_mailOn := g_mailOn g;
-     g_timeout := g_timeout g; g_delay := g_delay g; g_restartWait := g_restartWait g;
-     g_maxActiveRuns := g_maxActiveRuns g; g_maxCleanUpTime := g_maxCleanUpTime g; g_histRetentionDays := g_histRetentionDays g |}.
-Definition set_sched (v : list string * list string * list string) (g : dag) : dag :=
-  {| g_name := g_name g; g_group := g_group g; g_description := g_description g; g_tags := g_tags g;
-     g_schedule := fst (fst v); g_stopSchedule := snd (fst v); g_restartSchedule := snd v;
-     g_env := g_env g; g_logDir := g_logDir g; g_defaultParams := g_defaultParams g; g_params := g_params g;
-     g_steps := g_steps g; g_onExit := g_onExit g; g_onSuccess := g_onSuccess g; g_onFailure := g_onFailure g; g_onCancel := g_onCancel g;
-     g_preconditions := g_preconditions g; g_smtp := g_smtp g; g_errorMail := g_errorMail g; g_infoMail := g_infoMail g; g_mailOn := g_mailOn g;
-     g_timeout := g_timeout g; g_delay := g_delay g; g_restartWait := g_restartWait g;
-     g_maxActiveRuns := g_maxActiveRuns g; g_maxCleanUpTime := g_maxCleanUpTime g; g_histRetentionDays := g_histRetentionDays g |}.
-Definition set_mailOn (v : option mailOnDef) (g : dag) : dag :=
-  {| g_name := g_name g; g_group := g_group g; g_description := g_description g; g_tags := g_tags g;
-     g_schedule := g_schedule g; g_stopSchedule := g_stopSchedule g; g_restartSchedule := g_restartSchedule g;
-     g_env := g_env g; g_logDir := g_logDir g; g_defaultParams := g_defaultParams g; g_params := g_params g;
-     g_steps := g_steps g; g_onExit := g_onExit g; g_onSuccess := g_onSuccess g; g_onFailure := g_onFailure g; g_onCancel := g_onCancel g;
-     g_preconditions := g_preconditions g; g_smtp := g_smtp g; g_errorMail := g_errorMail g; g_infoMail := g_infoMail g; g_mailOn := v;
-     g_timeout := g_timeout g; g_delay := g_delay g; g_restartWait := g_restartWait g;
-     g_maxActiveRuns := g_maxActiveRuns g; g_maxCleanUpTime := g_maxCleanUpTime g; g_histRetentionDays := g_histRetentionDays g |}.
-Definition set_params (v : string * list string * list string) (g : dag) : dag :=
-  {| g_name := g_name g; g_group := g_group g; g_description := g_description g; g_tags := g_tags g;
-     g_schedule := g_schedule g; g_stopSchedule := g_stopSchedule g; g_restartSchedule := g_restartSchedule g;
-     g_env := g_env g ++ snd v; g_logDir := g_logDir g; g_defaultParams := fst (fst v); g_params := snd (fst v);
-     g_steps := g_steps g; g_onExit := g_onExit g; g_onSuccess := g_onSuccess g; g_onFailure := g_onFailure g; g_onCancel := g_onCancel g;
-     g_preconditions := g_preconditions g; g_smtp := g_smtp g; g_errorMail := g_errorMail g; g_infoMail := g_infoMail g; g_mailOn := g_mailOn g;
-     g_timeout := g_timeout g; g_delay := g_delay g; g_restartWait := g_restartWait g;
-     g_maxActiveRuns := g_maxActiveRuns g; g_maxCleanUpTime := g_maxCleanUpTime g; g_histRetentionDays := g_histRetentionDays g |}.
-Definition set_steps (v : list step) (g : dag) : dag :=
-  {| g_name := g_name g; g_group := g_group g; g_description := g_description g; g_tags := g_tags g;
-     g_schedule := g_schedule g; g_stopSchedule := g_stopSchedule g; g_restartSchedule := g_restartSchedule g;
-     g_env := g_env g; g_logDir := g_logDir g; g_defaultParams := g_defaultParams g; g_params := g_params g;
-     g_steps := v; g_onExit := g_onExit g; g_onSuccess := g_onSuccess g; g_onFailure := g_onFailure g; g_onCancel := g_onCancel g;
-     g_preconditions := g_preconditions g; g_smtp := g_smtp g; g_errorMail := g_errorMail g; g_infoMail := g_infoMail g; g_mailOn := g_mailOn g;
-     g_timeout := g_timeout g; g_delay := g_delay g; g_restartWait := g_restartWait g;
-     g_maxActiveRuns := g_maxActiveRuns g; g_maxCleanUpTime := g_maxCleanUpTime g; g_histRetentionDays := g_histRetentionDays g |}.
-Definition set_logDir (v : string) (g : dag) : dag :=
-  {| g_name := g_name g; g_group := g_group g; g_description := g_description g; g_tags := g_tags g;
-     g_schedule := g_schedule g; g_stopSchedule := g_stopSchedule g; g_restartSchedule := g_restartSchedule g;
-     g_env := g_env g; g_logDir := v; g_defaultParams := g_defaultParams g; g_params := g_params g;
-     g_steps := g_steps g; g_onExit := g_onExit g; g_onSuccess := g_onSuccess g; g_onFailure := g_onFailure g; g_onCancel := g_onCancel g;
-     g_preconditions := g_preconditions g; g_smtp := g_smtp g; g_errorMail := g_errorMail g; g_infoMail := g_infoMail g; g_mailOn := g_mailOn g;
-     g_timeout := g_timeout g; g_delay := g_delay g; g_restartWait := g_restartWait g;
-     g_maxActiveRuns := g_maxActiveRuns g; g_maxCleanUpTime := g_maxCleanUpTime g; g_histRetentionDays := g_histRetentionDays g |}.
-Definition set_handlers (v : option step * option step * option step * option step) (g : dag) : dag :=
-  let '(ex, su, fa, ca) := v in
-  {| g_name := g_name g; g_group := g_group g; g_description := g_description g; g_tags := g_tags g;
-     g_schedule := g_schedule g; g_stopSchedule := g_stopSchedule g; g_restartSchedule := g_restartSchedule g;
-     g_env := g_env g; g_logDir := g_logDir g; g_defaultParams := g_defaultParams g; g_params := g_params g;
-     g_steps := g_steps g; g_onExit := ex; g_onSuccess := su; g_onFailure := fa; g_onCancel := ca;
-     g_preconditions := g_preconditions g; g_smtp := g_smtp g; g_errorMail := g_errorMail g; g_infoMail := g_infoMail g; g_mailOn := g_mailOn g;
-     g_timeout := g_timeout g; g_delay := g_delay g; g_restartWait := g_restartWait g;
-     g_maxActiveRuns := g_maxActiveRuns g; g_maxCleanUpTime := g_maxCleanUpTime g; g_histRetentionDays := g_histRetentionDays g |}.
-Definition set_mail (v : smtpConfigDef) (d : definition) (g : dag) : dag :=
-  {| g_name := g_name g; g_group := g_group g; g_description := g_description g; g_tags := g_tags g;
-     g_schedule := g_schedule g; g_stopSchedule := g_stopSchedule g; g_restartSchedule := g_restartSchedule g;
-     g_env := g_env g; g_logDir := g_logDir g; g_defaultParams := g_defaultParams g; g_params := g_params g;
-     g_steps := g_steps g; g_onExit := g_onExit g; g_onSuccess := g_onSuccess g; g_onFailure := g_onFailure g; g_onCancel := g_onCancel g;
-     g_preconditions := g_preconditions g; g_smtp := Some v; g_errorMail := Some (d_errorMail d); g_infoMail := Some (d_infoMail d); g_mailOn := g_mailOn g;
-     g_timeout := g_timeout g; g_delay := g_delay g; g_restartWait := g_restartWait g;
-     g_maxActiveRuns := g_maxActiveRuns g; g_maxCleanUpTime := g_maxCleanUpTime g; g_histRetentionDays := g_histRetentionDays g |}.
-Definition set_miscs (d : definition) (v : list condition) (g : dag) : dag :=
-  {| g_name := g_name g; g_group := g_group g; g_description := g_description g; g_tags := g_tags g;
-     g_schedule := g_schedule g; g_stopSchedule := g_stopSchedule g; g_restartSchedule := g_restartSchedule g;
-     g_env := g_env g; g_logDir := g_logDir g; g_defaultParams := g_defaultParams g; g_params := g_params g;
-     g_steps := g_steps g; g_onExit := g_onExit g; g_onSuccess := g_onSuccess g; g_onFailure := g_onFailure g; g_onCancel := g_onCancel g;
-     g_preconditions := v; g_smtp := g_smtp g; g_errorMail := g_errorMail g; g_infoMail := g_infoMail g; g_mailOn := g_mailOn g;
-     g_timeout := g_timeout g; g_delay := g_delay g; g_restartWait := g_restartWait g;
-     g_maxActiveRuns := d_maxActiveRuns d;
-     g_maxCleanUpTime := match d_maxCleanUpTimeSec d with Some z => z | None => g_maxCleanUpTime g end;
-     g_histRetentionDays := match d_histRetentionDays d with Some z => z | None => g_histRetentionDays g end |}.
+Definition odefault {A} (x : A) (o : option A) : A := match o with Some a => a | None => x end.
 
 Definition build (o : opts) (d : definition) (base : list string) : M dag :=
-  s0 <- ret {| b_dag := dag0 d; b_failed := false |} ;;
-  s1 <- call (buildEnvs d o base) set_env s0 ;;
-  s2 <- call (lift (buildSchedule d)) set_sched s1 ;;
-  s3 <- call (ret (d_mailOn d)) set_mailOn s2 ;;
-  s4 <- call (buildParams d o) set_params s3 ;;
-  sN <- (if o_metadataOnly o then ret s4
-         else
-           s5 <- call (lift (buildSteps (g_env (b_dag s4)) (d_steps d) (d_functions d))) set_steps s4 ;;
-           s6 <- call (buildLogDir d) set_logDir s5 ;;
-           s7 <- call (lift (buildHandlers (g_env (b_dag s6)) (d_handlerOn d) (d_functions d))) set_handlers s6 ;;
-           s8 <- call (buildSMTPConfig d) (fun v => set_mail v d) s7 ;;
-           s9 <- call (lift (buildConditions (d_preconditions d))) (set_miscs d) s8 ;;
-           call (lift (assertFunctions (d_functions d))) (fun _ g => g) s9) ;;
-  if b_failed sN then lift Err else ret (b_dag sN).
+  r_env <- try_ (buildEnvs d o base) ;;
+  r_sch <- try_ (lift (buildSchedule d)) ;;
+  (* buildMailOn cannot fail *)
+  r_par <- try_ (buildParams d o) ;;
+  let vars := odefault [] r_env ++ match r_par with Some p => snd p | None => [] end in
+  if o_metadataOnly o then
+    match r_env, r_sch, r_par with
+    | Some env, Some sch, Some par => ret (mk_dag d env sch par [] "" (None, None, None, None) None false [])
+    | _, _, _ => lift Err
+    end
+  else
+    r_steps <- try_ (lift (buildSteps vars (d_steps d) (d_functions d))) ;;
+    r_log <- try_ (buildLogDir d) ;;
+    r_hs <- try_ (lift (buildHandlers vars (d_handlerOn d) (d_functions d))) ;;
+    r_smtp <- try_ (buildSMTPConfig d) ;;
+    (* buildErrMailConfig / buildInfoMailConfig cannot fail *)
+    r_pre <- try_ (lift (buildConditions (d_preconditions d))) ;;      (* buildMiscs *)
+    r_fn <- try_ (lift (assertFunctions (d_functions d))) ;;
+    match r_env, r_sch, r_par, r_steps, r_log, r_hs, r_smtp, r_pre, r_fn with
+    | Some env, Some sch, Some par, Some steps, Some logDir, Some hs, Some smtp, Some pre, Some _ =>
+        ret (mk_dag d env sch par steps logDir hs (Some smtp) true pre)
+    | _, _, _, _, _, _, _, _, _ => lift Err
+    end.
 
 (* ---- condition.go:33 evalCondition, patternutil.go:35 MatchPatternScanner ---------------------------- *)
 (* the condition is evaluated first (a failing command returns an error before any pattern is compiled);
